@@ -1,7 +1,7 @@
 (* C03 — rendering JSONB as text yields valid JSON that denotes the same document. *)
 From Coq Require Import List NArith ZArith Bool.
 Import ListNotations.
-From JB Require Import Constants Bytes Num Value Render MiscProofs.
+From JB Require Import Constants Bytes Num Value Order Render MiscProofs JsonText SerdeProofs OrderProofs TextRoundtrip.
 Open Scope N_scope.
 
 (* inside a string literal every control character, the quote and the backslash are escaped; every other byte is
@@ -20,3 +20,10 @@ Theorem C03_other_bytes_copied :
   forall b, In b (map N.of_nat (seq 32 224)) -> b <> 34 -> b <> 92 -> escape_byte b = [b].
 Proof. exact other_bytes_copied. Qed.
 Print Assumptions C03_other_bytes_copied.
+
+(* ---- the rendering denotes the document: the library's own (strict on this fragment) reader gives the value back,
+   equal to the original under compare, and identical when the original stores its non-negative integers unsigned *)
+Theorem C03_parse_of_rendering : forall pf v, wf_shape v = true -> no_float v = true ->
+  parse_value (to_string_t pf v) = Ok (unsign v) /\ cmp_value (unsign v) v = Eq.
+Proof. intros pf v Hw Hn. split; [exact (parse_render_roundtrip pf v Hw Hn)|exact (unsign_equal v)]. Qed.
+Print Assumptions C03_parse_of_rendering.
